@@ -778,7 +778,12 @@ package packets1
 //@      (istype(p, *WillMsgResp) ==> uint8(p.(*WillMsgResp).Header.pktType) == 29)
 //@ pred gwToClientType(p iface) = istype(p, *Connack) || istype(p, *WillTopicReq) || istype(p, *WillMsgReq) || istype(p, *Register) || istype(p, *Regack) || istype(p, *Publish) || istype(p, *Puback) || istype(p, *Pubcomp) || istype(p, *Pubrec) || istype(p, *Pubrel) || istype(p, *Suback) || istype(p, *Unsuback) || istype(p, *Pingresp) || istype(p, *Disconnect) || istype(p, *WillTopicResp) || istype(p, *WillMsgResp) || istype(p, *Advertise) || istype(p, *GwInfo)
 //@ pred clientToGwType(p iface) = istype(p, *Connect) || istype(p, *Auth) || istype(p, *WillTopic) || istype(p, *WillMsg) || istype(p, *Register) || istype(p, *Regack) || istype(p, *Publish) || istype(p, *Puback) || istype(p, *Pubcomp) || istype(p, *Pubrec) || istype(p, *Pubrel) || istype(p, *Subscribe) || istype(p, *Unsubscribe) || istype(p, *Pingreq) || istype(p, *Disconnect) || istype(p, *WillTopicUpd) || istype(p, *WillMsgUpd) || istype(p, *SearchGw)
-//@ pred wfFromGateway(p iface) = packable(p) && typedHeader(p) && gwToClientType(p)
-//@ pred wfFromClient(p iface) = packable(p) && typedHeader(p) && clientToGwType(p)
+//@ opaque pred wfFromGateway(p iface) = packable(p) && typedHeader(p) && gwToClientType(p)
+//@ opaque pred wfFromClient(p iface) = packable(p) && typedHeader(p) && clientToGwType(p)
 // Pack recomputes the header length of these types (assigns lists of the senders):
 // pkt.(*GwInfo).Header.pktLength, pkt.(*Connect).Header.pktLength, pkt.(*WillMsg).Header.pktLength, pkt.(*Register).Header.pktLength, pkt.(*Publish).Header.pktLength, pkt.(*Pingreq).Header.pktLength, pkt.(*WillMsgUpd).Header.pktLength, pkt.(*Auth).Header.pktLength, pkt.(*WillTopic).Header.pktLength, pkt.(*WillTopicUpd).Header.pktLength, pkt.(*Subscribe).Header.pktLength, pkt.(*Unsubscribe).Header.pktLength, pkt.(*Disconnect).Header.pktLength
+
+// ---- AUTH PLAIN data (bytes.Split is a trusted, uninterpreted library call) ----
+//@ func (*Auth).DecodePlain
+//@   nopanic [C25]
+//@   ensures [C25] err_or_values: true
